@@ -295,8 +295,8 @@ def gen_def(d, out):
         pbs = "<" + ", ".join(pb) + ">" if pb else ""
         out.append(f"impl{pbs} Proj for {name}{gu} {{")
         if d["dk"] == "struct":
-            lets = " ".join(f"let f{i} = self.{f['name']}.proj(c);" for i, f in enumerate(d["fields"]))
-            out.append(f"    fn proj(&self, c: &mut Ctx) -> AVal {{ let _ = &c; {lets} json!([" +
+            lets = " ".join(f"let f{i} = self.{f['name']}.proj(cx__);" for i, f in enumerate(d["fields"]))
+            out.append(f"    fn proj(&self, cx__: &mut Ctx) -> AVal {{ let _ = &cx__; {lets} json!([" +
                        ", ".join(f"f{i}" for i in range(len(d["fields"]))) + "]) }")
         else:
             arms = []
@@ -311,10 +311,10 @@ def gen_def(d, out):
                     else:
                         names = [f["name"] for f in fs]
                         pat = f"{name}::{v['name']} {{ " + ", ".join(names) + " }"
-                    lets = " ".join(f"let p{i} = {n}.proj(c);" for i, n in enumerate(names))
+                    lets = " ".join(f"let p{i} = {n}.proj(cx__);" for i, n in enumerate(names))
                     arms.append(f"{pat} => {{ {lets} json!([{vi}, " + ", ".join(
                         f"p{i}" for i in range(len(fs))) + "]) }")
-            out.append("    fn proj(&self, c: &mut Ctx) -> AVal { let _ = &c; match self { " + " ".join(arms) + " } }")
+            out.append("    fn proj(&self, cx__: &mut Ctx) -> AVal { let _ = &cx__; match self { " + " ".join(arms) + " } }")
         out.append("}")
     out.append("")
 
